@@ -18,10 +18,12 @@ var zzT0 = time.Unix(1700000000, 0).UTC()
 
 var zzIDs = []uint64{3, 70}
 
-// zzChunks: 1..maxChunks chunks; directions, lengths and content types are
+// zzChunks: 1..maxChunks chunks (0..maxChunks with emptylist=1: a converter
+// may answer with no output at all, which is stored like any other); directions, lengths and content types are
 // choices, content bytes symbolic, times t0 + fixed increasing offsets.
 func zzChunks(tag string, maxChunks int) []index.Data {
-	n := 1 + zz.Choice(tag+".n", maxChunks)
+	least := 1 - zz.Param("emptylist", 0)
+	n := least + zz.Choice(tag+".n", maxChunks+1-least)
 	res := make([]index.Data, n)
 	t := zzT0
 	for i := range res {
